@@ -60,7 +60,7 @@ ASSUMPTIONS = [
 NOT_REACHED = [
     "in-memory inputs (io.BytesIO / io.StringIO)", "text files whose last row has no line terminator, '\\r'-only line ends",
     "non-integer or negative NORTH_ROT, non-integer SAMP_FREQ / sample rate in SAF and MiniShark headers",
-    "PEER azimuth pairs outside (h, h+90), h <= 45 (e.g. 350/080) where 'closest to north' and 'first horizontal' differ",
+    "PEER azimuth pairs that are not right-handed (h, h+90) with the first horizontal within 45 degrees of north (e.g. 180/270, 010/280: the reader keeps the stored polarity, which mirrors azimuthal results - reported as an aside, not judged)",
     "miniSEED files with gaps / more than one segment per channel, sample-count corruption inside miniSEED/GCF records",
     "records longer than 20000 samples except the real example files (180001 samples)",
     "GCF samples beyond +-2^30 (obspy's GCF codec does not round-trip larger first differences: 'last data != RIC')",
@@ -510,12 +510,13 @@ def build_peer(ctx, rng, d, n, tag="peer"):
         file_deg, h = 0.0, None
     else:
         r = rng.random()
-        h = 0 if r < 0.35 else (45 if r < 0.5 else int(rng.integers(1, 45)))
+        h = 0 if r < 0.3 else (45 if r < 0.4 else (int(rng.integers(1, 45)) if r < 0.75 else int(rng.integers(316, 360))))
         if h == 0:
             hn = str(rng.choice(["360", "000", "0"]))
         else:
             hn = ("%03d" % h) if rng.random() < 0.6 else str(h)
-        he = ("%03d" % (h + 90)) if (len(hn) == 3) else str(h + 90)
+        # the second horizontal is 90 degrees clockwise of the first (a right-handed pair), e.g. 350 / 080
+        he = ("%03d" % ((h + 90) % 360)) if (len(hn) == 3) else str((h + 90) % 360)
         codes = {"vt": scheme, "ns": hn, "ew": he}
         file_deg = float(h % 360)
     unequal = rng.random() < 0.3
